@@ -11,7 +11,8 @@
 From Coq Require Import ZArith List Bool.
 Import ListNotations.
 Require Import Verif.gen.Consts_rb Verif.gen.Consts_rbow Verif.RbModel Verif.RbSpec Verif.RbProofs Verif.RbRefine
-               Verif.RbOwSpec Verif.RbOwProofs Verif.RbOwKeeps Verif.BbModel Verif.BbProofs Verif.RbOwRefuted.
+               Verif.RbOwSpec Verif.RbOwProofs Verif.RbOwKeeps Verif.BbModel Verif.BbProofs Verif.RbOwRefuted
+               Verif.RbOwExtra Verif.RbOwDumpModel Verif.RbOwDump.
 Local Open Scope Z_scope.
 
 (* side conditions on the blackbox constants regenerated from the working tree *)
@@ -132,6 +133,53 @@ Print Assumptions C11_blackbox_dumps_are_pure.
 Theorem C11_blackbox_record_roundtrip : forall r, rec_ok r -> bb_decode (bb_encode r) = Some r.
 Proof. exact decode_encode. Qed.
 Print Assumptions C11_blackbox_record_roundtrip.
+
+(* "every write of at most the requested size succeeds", from any state satisfying the invariant *)
+Theorem C11_always_accepts : forall S b s d, Inv b s -> ovw b = true ->
+  S + RB_CHUNK_MARGIN + RB_SIZE_EXTRA <= 4 * rW b -> zlen d <= S ->
+  exists b', write b d = WRet b' (zlen d) /\
+             Inv b' {| sq := drop_until (rW b) (sq s) (zlen d) ++ [d]; stok := tok_add s 1 |} /\
+             rW b' = rW b /\ ovw b' = true.
+Proof. exact always_accepts. Qed.
+Print Assumptions C11_always_accepts.
+
+(* the blackbox theorem at the level of records: parsing the chunks of a dump the way
+   qb_log_blackbox_print_from_file does yields exactly the records of the latest calls *)
+Theorem C11_blackbox_dump_decodes : forall S maxline n R calls, size_ok S -> Forall (call_ok S maxline n) calls ->
+  Forall (fun c => bb_reserve maxline (r_fn (lc_hdr c)) <= R) calls ->
+  Forall (fun c => rec_ok (lc_rec maxline c)) calls ->
+  exists b kept,
+    fst (bb_run (bb_open S) (map (lc_op maxline) calls)) = Some b /\
+    suffix kept calls /\ (calls <> [] -> kept <> []) /\
+    (forall l, suffix l calls -> Z.of_nat (length l) * (R + 16) <= S -> suffix l kept) /\
+    map bb_decode (bb_dump b n) = map (fun c => Some (lc_rec maxline c)) kept.
+Proof. exact bb_dump_decodes. Qed.
+Print Assumptions C11_blackbox_dump_decodes.
+
+(* The dump file word by word: qb_rb_create_from_file applied to the words qb_rb_write_to_file produced (header
+   hash and version checked, the data words loaded into a fresh NO_SEMAPHORE ring of the same word_size) yields a
+   ring that represents the same queue - for every ring state whose data area holds bytes (Good: preserved by every
+   operation with byte payloads, C11_good_all_histories) and whose size is a page multiple (qb_rb_open's rings). *)
+Theorem C11_dump_file_roundtrip : forall b q, Repr b q -> Good b -> (RB_SIZEOF_WORD * rW b) mod RB_PAGE_SIZE = 0 ->
+  exists fb, rb_from_dump (dump b) = Some fb /\ Repr fb q /\ sem fb = None /\ ovw fb = false /\ rW fb = rW b.
+Proof. exact dump_roundtrip. Qed.
+Print Assumptions C11_dump_file_roundtrip.
+
+Theorem C11_good_all_histories : forall S ns ow ops, 0 <= S -> Forall op_bytes_ok ops ->
+  Good (fst (run (rb_open S ns ow) ops)).
+Proof. exact (fun S ns ow ops HS Ho => good_run ops _ (good_open S ns ow HS) Ho). Qed.
+Print Assumptions C11_good_all_histories.
+
+(* C11_suffix with the contents read back through the words of the dump file *)
+Theorem C11_suffix_through_dump_file : forall S ns ws n, size_ok S -> Forall (wf_w S) ws ->
+  Forall (fun w => zlen (snd w) <= n) ws -> Forall (fun w => chunk_bytes_ok (snd w)) ws ->
+  exists b kept,
+    ow_writes (rb_open S ns true) ws = Some b /\
+    suffix kept ws /\ (ws <> [] -> kept <> []) /\
+    (forall l, suffix l ws -> rfits S l = true -> suffix l kept) /\
+    readback_words b n = map snd kept.
+Proof. exact ow_suffix_words. Qed.
+Print Assumptions C11_suffix_through_dump_file.
 
 (* ------------------------------------------------------------------ non-vacuity *)
 Example C11_example_overwrite_state :
